@@ -13,7 +13,7 @@ use loom::cell::UnsafeCell;
 use loom::sync::mpsc::{channel, Receiver, Sender};
 use loom::thread::ThreadId;
 
-use crate::prog::{Act, Prog};
+use crate::prog::{Act, Prog, Start};
 
 type Sm = Smart<Payload, hipstr::Arc>;
 
@@ -36,6 +36,12 @@ pub struct Tracker {
     final_val: AtomicUsize,
     /// the loom thread that ran the (last) free
     freed_by: StdMutex<Option<ThreadId>>,
+    /// number of live REAL handles to the shared buffer, maintained by the harness alone:
+    /// +1 right after a sharing clone, -1 right BEFORE a drop / a `try_unwrap` (+1 back on
+    /// `Err`); sends do not change it
+    live: AtomicUsize,
+    /// number of granted `mutate` actions so far
+    granted: AtomicUsize,
 }
 
 impl Tracker {
@@ -44,6 +50,8 @@ impl Tracker {
             freed: AtomicUsize::new(0),
             final_val: AtomicUsize::new(0),
             freed_by: StdMutex::new(None),
+            live: AtomicUsize::new(0),
+            granted: AtomicUsize::new(0),
         }
     }
     fn freed(&self) -> usize {
@@ -51,6 +59,17 @@ impl Tracker {
     }
     fn freed_by(&self) -> Option<ThreadId> {
         *self.freed_by.lock().unwrap_or_else(|e| e.into_inner())
+    }
+    fn live(&self) -> usize {
+        self.live.load(StdOrd::SeqCst)
+    }
+    /// `as_mut` returned `Some` / `try_unwrap` returned `Ok`: no OTHER real handle may be alive.
+    fn check_unique(&self, others: usize, t: usize, what: &str) {
+        if others != 0 {
+            panic!(
+                "monitor: unique access granted while {others} other handle(s) alive (thread {t}, `{what}`)"
+            );
+        }
     }
 }
 
@@ -101,7 +120,7 @@ impl Drop for Payload {
             }
             *self.tracker.freed_by.lock().unwrap_or_else(|e| e.into_inner()) =
                 Some(loom::thread::current().id());
-            assert!(n <= 1, "HIPVERIF double-free: original payload dropped {n} times");
+            assert!(n <= 1, "monitor: double-free: original payload dropped {n} times");
         }
     }
 }
@@ -150,7 +169,7 @@ fn uaf_check(tracker: &Tracker, t: usize, what: &str) {
     // The thread is about to use a handle to the shared buffer.  If the original payload has
     // already been dropped the handle dangles: report BEFORE touching the freed memory.
     if tracker.freed() > 0 {
-        panic!("HIPVERIF use-after-free: thread {t} starts `{what}` on a handle whose buffer has been freed");
+        panic!("monitor: use-after-free: thread {t} starts `{what}` on a handle whose buffer has been freed");
     }
 }
 
@@ -199,6 +218,7 @@ fn thread_body(
                 let h = handles.last().unwrap();
                 let c = H::new(Sm::clone(&h.0));
                 if c.payload_ptr() == h.payload_ptr() {
+                    tracker.live.fetch_add(1, StdOrd::SeqCst);
                     handles.push(c);
                     results.push(0);
                 } else {
@@ -209,6 +229,7 @@ fn thread_body(
             Act::Drop => {
                 uaf_check(&tracker, t, "drop");
                 let h = handles.pop().unwrap();
+                tracker.live.fetch_sub(1, StdOrd::SeqCst);
                 drop(h);
                 results.push(usize::from(freed_now(&tracker)));
             }
@@ -216,7 +237,9 @@ fn thread_body(
                 uaf_check(&tracker, t, "mutate");
                 let h = handles.last_mut().unwrap();
                 let r = if let Some(p) = h.0.as_mut() {
+                    tracker.check_unique(tracker.live() - 1, t, "as_mut");
                     p.bump();
+                    tracker.granted.fetch_add(1, StdOrd::SeqCst);
                     1
                 } else {
                     0
@@ -226,13 +249,18 @@ fn thread_body(
             Act::Unwrap => {
                 uaf_check(&tracker, t, "unwrap");
                 let h = handles.pop().unwrap();
+                tracker.live.fetch_sub(1, StdOrd::SeqCst);
                 match h.into_inner().try_unwrap() {
                     Ok(payload) => {
+                        // (on a failure `payload` is dropped by the unwinding, where
+                        // `Payload::drop` does nothing)
+                        tracker.check_unique(tracker.live(), t, "try_unwrap");
                         drop(payload);
                         let _ = freed_now(&tracker);
                         results.push(1);
                     }
                     Err(h) => {
+                        tracker.live.fetch_add(1, StdOrd::SeqCst);
                         handles.push(H::new(h));
                         results.push(0);
                     }
@@ -261,15 +289,23 @@ fn run_once(prog: &Prog, sink: &Sink) {
     sink.iterations.fetch_add(1, StdOrd::SeqCst);
     let n = prog.threads.len();
     let tracker = StdArc::new(Tracker::new());
+    let at_ceiling = prog.start != Start::Normal;
 
-    // the shared buffer and the initial handles
+    // the shared buffer and the initial handles; for programs started at the ceiling main keeps
+    // one spare handle of its own (so that the box can be released properly at the end)
     let root = H::new(Sm::new(Payload::new(tracker.clone())));
-    let total: usize = prog.h.iter().sum();
+    let total: usize = prog.h.iter().sum::<usize>() + usize::from(at_ceiling);
     let mut pool = vec![root];
     while pool.len() < total {
         let c = H::new(Sm::clone(&pool[0].0));
         assert!(c.payload_ptr() == pool[0].payload_ptr(), "HIPVERIF internal: initial clone copied");
         pool.push(c);
+    }
+    tracker.live.store(total, StdOrd::SeqCst);
+    match prog.start {
+        Start::Normal => {}
+        Start::Ceil => pool[0].0.verif_set_count(usize::MAX),
+        Start::CeilMinus1 => pool[0].0.verif_set_count(usize::MAX - 1),
     }
 
     let mut txs: Vec<Sender<H>> = Vec::new();
@@ -301,7 +337,7 @@ fn run_once(prog: &Prog, sink: &Sink) {
 
     // ---- outcome: evaluated BEFORE the leftover handles are dropped ----
     let freed = tracker.freed();
-    let mut leftovers: Vec<H> = Vec::new();
+    let mut leftovers: Vec<H> = pool; // main's spare handle, if any
     let mut copies: Vec<H> = Vec::new();
     let mut parts: Vec<String> = Vec::new();
     for (t, mut o) in outs.into_iter().enumerate() {
@@ -318,15 +354,19 @@ fn run_once(prog: &Prog, sink: &Sink) {
             }
         }
     }
-    let pval = if freed > 0 {
-        tracker.final_val.load(StdOrd::SeqCst).to_string()
-    } else if let Some(h) = leftovers.first() {
-        h.0.as_ref().get().to_string()
+    assert!(
+        leftovers.len() == tracker.live(),
+        "HIPVERIF internal: {} leftover handles but live = {}",
+        leftovers.len(),
+        tracker.live()
+    );
+    let pval: Option<usize> = if freed > 0 {
+        Some(tracker.final_val.load(StdOrd::SeqCst))
     } else {
-        "leaked".to_string()
+        leftovers.first().map(|h| h.0.as_ref().get())
     };
     parts.push(format!("freed={freed}"));
-    parts.push(format!("pval={pval}"));
+    parts.push(format!("pval={}", pval.map_or("leaked".to_string(), |v| v.to_string())));
     let outcome = parts.join("/");
     *sink
         .outcomes
@@ -335,20 +375,38 @@ fn run_once(prog: &Prog, sink: &Sink) {
         .entry(outcome)
         .or_insert(0) += 1;
 
-    // ---- cleanup ----
-    drop(copies);
-    if freed > 0 {
-        // dangling handles (only possible with a broken counter): do not touch them
+    // ---- end-of-execution monitors and cleanup ----
+    let granted = tracker.granted.load(StdOrd::SeqCst);
+    if freed == 0 && leftovers.is_empty() {
+        panic!("monitor: leak: every handle has been dropped but the payload was never freed");
+    }
+    if freed > 0 && !leftovers.is_empty() {
+        let k = leftovers.len();
+        // dangling handles: do not touch them
         for h in leftovers {
             h.leak();
         }
-    } else {
-        let had = !leftovers.is_empty();
+        panic!("monitor: use-after-free: payload freed while {k} handle(s) are still alive at the end of the programs");
+    }
+    if let Some(v) = pval {
+        if v != granted {
+            for h in leftovers {
+                h.leak();
+            }
+            panic!("monitor: content: final payload value {v} but {granted} mutation(s) were granted");
+        }
+    }
+    drop(copies);
+    if freed == 0 {
+        if at_ceiling {
+            // back from the ceiling to the true number of handles
+            leftovers[0].0.verif_set_count(leftovers.len());
+        }
         drop(leftovers);
         let after = tracker.freed();
         assert!(
             after == 1,
-            "HIPVERIF leak: all handles dropped (leftovers: {had}) but the payload was freed {after} times"
+            "monitor: leak: every handle has been dropped but the payload was freed {after} times"
         );
     }
 }
@@ -359,7 +417,8 @@ fn run_once(prog: &Prog, sink: &Sink) {
 
 #[derive(Clone, Debug)]
 pub struct LoomResult {
-    /// ok | race | double-free | use-after-free | leak | deadlock | branch-limit | error
+    /// ok | race | double-free | use-after-free | leak | content | unique-while-shared |
+    /// deadlock | branch-limit | error
     pub verdict: String,
     /// outcome string -> number of executions that produced it
     pub outcomes: BTreeMap<String, u64>,
@@ -372,12 +431,16 @@ pub struct LoomResult {
 }
 
 fn classify(msg: &str) -> &'static str {
-    if msg.contains("HIPVERIF double-free") {
+    if msg.contains("monitor: double-free") {
         "double-free"
-    } else if msg.contains("HIPVERIF use-after-free") {
+    } else if msg.contains("monitor: use-after-free") {
         "use-after-free"
-    } else if msg.contains("HIPVERIF leak") {
+    } else if msg.contains("monitor: leak") {
         "leak"
+    } else if msg.contains("monitor: content") {
+        "content"
+    } else if msg.contains("monitor: unique access granted") {
+        "unique-while-shared"
     } else if msg.contains("Causality violation")
         || msg.contains("currently writing to cell")
         || msg.contains("currently reading from cell")
@@ -390,6 +453,14 @@ fn classify(msg: &str) -> &'static str {
     } else {
         "error"
     }
+}
+
+/// The verdicts that are property monitors firing on the real code.
+pub fn is_monitor(verdict: &str) -> bool {
+    matches!(
+        verdict,
+        "race" | "double-free" | "use-after-free" | "leak" | "content" | "unique-while-shared"
+    )
 }
 
 pub fn run_program(prog: &Prog, bound: Option<usize>, budget: Option<Duration>) -> LoomResult {
